@@ -363,3 +363,93 @@ def check_object_from_file_contract():
                     handlers={'parse': parse_callee(), 'io.open': h_open, 'json.load': h_json_load, 'apply_common_filters': h_acf, 'next': h_next},
                     on_outcomes=lambda x, outs, add: store_caller_postconditions(x, outs, add, version), ignore_unknown_exceptions=True,
                     note='call-site routing on the filesystem read path')
+
+
+# ------------------------------------------------------------------ _STIXBase.__init__: the raw-input prefix (region contract, cut at the property loop)
+def init_prefix_contract():
+    """everything __init__ does with the raw keyword arguments BEFORE property cleaning: custom_properties, the extensions scan,
+    custom-property naming.  kwargs is an arbitrary JSON dictionary (any values, any key strings)."""
+    import os
+    kw = z3.Const('kwargs', J)
+    PROPS = z3.Const('self._properties.keys()', E.SetS)
+    IS20 = z3.Bool('isinstance(self, _STIXBase20)')
+
+    def keyset(j):
+        u = z3.FreshConst(S, 'u'); return z3.Lambda([u], has(j, u))
+
+    def m_pop(x, recv, args, e, p, site):
+        j = recv.t; k = args[0]
+        if not (k.sort == 'str' and isinstance(e.func.value, ast.Name)): raise Unsupported(site)
+        E._counter[0] += 1
+        j2 = z3.Const(f'kwargs_after_pop!{E._counter[0]}', J); u = z3.FreshConst(S, 'u')
+        facts = [tag(j2) == TAG['dict'], z3.ForAll([u], has(j2, u) == z3.And(has(j, u), u != k.t)), z3.ForAll([u], get(j2, u) == get(j, u))]
+        q = p.fork(has(j, k.t), *facts); 
+        if sat(q.pc):
+            q.env[e.func.value.id] = JV(j2); yield q, JV(get(j, k.t))
+        q = p.fork(z3.Not(has(j, k.t)), *facts)
+        if sat(q.pc):
+            q.env[e.func.value.id] = JV(j2)
+            if len(args) > 1: yield q, args[1]
+            else: yield q, Exc('KeyError', site)
+
+    def m_keys_j(x, recv, args, e, p, site):
+        j = recv.t
+        q = p.fork(tag(j) != TAG['dict'])
+        if sat(q.pc): yield q, Exc('AttributeError', site)
+        q = p.fork(tag(j) == TAG['dict'])
+        if sat(q.pc): yield q, SetV(keyset(j))
+
+    def m_keys_set(x, recv, args, e, p, site): yield p, recv
+    def m_keys_litdict(x, recv, args, e, p, site):
+        if recv.x: raise Unsupported(site)
+        yield p, SetV(E.EMPTY)
+
+    def attr_props(x, o, p, site): yield p, SetV(PROPS)
+
+    def h_opaque(x, e, p, site):
+        for p1, vs in x.ev_seq([a for a in e.args if not isinstance(a, ast.Starred)], p):
+            yield p1, (vs if isinstance(vs, Exc) else Val('opaque', x=ast.unparse(e.func) + '()'))
+
+    def h_class_for_type(x, e, p, site):
+        for p1, vs in x.ev_seq(list(e.args), p):
+            if isinstance(vs, Exc):
+                yield p1, vs; continue
+            yield p1, Val('cls', x={'found': z3.FreshConst(z3.BoolSort(), 'registered_ext')})
+
+    def h_getattr(x, e, p, site):
+        yield p, SetV(z3.FreshConst(E.SetS, 'toplevel_props'))
+
+    def h_re_match(x, e, p, site):
+        from vf.pyvc import rx
+        if ast.unparse(e.args[0]) != 'PREFIX_21_REGEX': raise Unsupported(site + ' pattern')
+        tree = ast.parse(open(os.path.join(x.src_root, 'stix2/utils.py')).read())
+        node = next(n.value for n in tree.body if isinstance(n, ast.Assign) and isinstance(n.targets[0], ast.Name) and n.targets[0].id == 'PREFIX_21_REGEX')
+        pat = node.args[0].value
+        L = rx.match_language(pat, 0)
+        for p1, vs in x.ev_seq([e.args[1]], p):
+            if isinstance(vs, Exc):
+                yield p1, vs; continue
+            if vs[0].sort != 'str': raise Unsupported(site)
+            yield p1, Val('matchobj', z3.InRe(vs[0].t, L))
+
+    def it_set(x, it, p, site):
+        E._counter[0] += 1
+        el = z3.Function(f'elem_of_set!{E._counter[0]}', z3.IntSort(), S); n = z3.FreshConst(z3.IntSort(), 'n_set'); i = z3.Int('i!set')
+        yield p.fork(n >= 0, z3.ForAll([i], z3.Implies(z3.And(0 <= i, i < n), it.t[el(i)]))), Seq(lambda k: Str(el(k)), n)
+
+    def isinst(b):
+        def h(x, v, p, site): yield p, Bool(b)
+        return h
+    return Contract('stix2/base.py::_STIXBase.__init__', props=['C17', 'C04'],
+                    params={'self': Val('stixself', x='self'), 'allow_custom': 'bool', 'interoperability': 'bool', 'kwargs': JV(kw)},
+                    requires=[('keyword arguments form a dictionary (they come from **stix_dict)', lambda a: tag(kw) == TAG['dict'])],
+                    raises=dict(FAMILY), ignore_unknown_exceptions=True,
+                    cut=lambda st: isinstance(st, ast.For) and ast.unparse(st.iter) == 'property_order',
+                    handlers={'get_timestamp': h_opaque, 'class_for_type': h_class_for_type, 'getattr': h_getattr, 're.match': h_re_match, 'isinstance:stix2.v20._STIXBase20': isinst(IS20),
+                              'collections.ChainMap': h_opaque, 'itertools.chain': h_opaque, 'sorted': h_opaque, 'get_required_properties': h_opaque},
+                    registry_ext={'methods': {('.pop', 'J'): m_pop, ('.keys', 'J'): m_keys_j, ('.keys', 'set'): m_keys_set, ('.keys', 'litdict'): m_keys_litdict},
+                                  'attrs': {('stixself', '_properties'): attr_props, ('stixself', '__class__'): lambda x, o, p, site: iter([(p, Val('opaque', x='self.__class__'))])}, 'iterables': {'set': it_set}},
+                    truthy_handlers={'cls': lambda x, v: v.x['found']},
+                    local_sorts={'registered_toplevel_extension_props': 'set'},
+                    loops={0: {'kind': 'inv', 'inv': lambda x, env, i, it: z3.BoolVal(True)}},
+                    note='region contract: no KeyError/AttributeError/IndexError can escape from the code that inspects raw input before cleaning')
